@@ -103,6 +103,17 @@ CHECKS = {
              "DuckDB's typeof() reports on a one-row table; annotation must not change the generated SQL.",
         note="class-level comparison; inferred UNKNOWN and engine \"NULL\" are compatible with anything; DuckDB 1.5.5. " + TRUST,
         design="2/C16"),
+    "C17": dict(
+        category="exploration", engine="E1",
+        technique="exhaustive bottom-up enumeration of relations (<= k wrappers) carrying compositional ground truth x 4 equivalent presentations; exact leaf-set oracle and lineage(None) differential",
+        text="Every relation built from base tables with at most 3 (thorough 4) wrappers - projection expressions, *, t.*, constants, "
+             "aggregates, windows, CASE, column swap with filter, scalar subquery, self join of one inner query through two aliases, join "
+             "with every cheaper relation, UNION ALL with every relation of equal arity (5662 relations at k=3) - carries for each output "
+             "column the set of base columns it was built from. Each is rendered inline, with CTEs (shared CTEs reused), with first-level "
+             "inner queries supplied through sources=, and with renamed aliases; for every output column the leaves of lineage(col) "
+             "must equal the ground truth in all presentations and equal lineage(None)[col] (shared cache).",
+        note="ground truth is purely syntactic flow through projections (incl. PARTITION BY / CASE conditions), nothing from WHERE/ON/ORDER BY. " + TRUST,
+        design="2/C17"),
     "C18": dict(
         category="model_checking", engine="E2",
         technique="explicit-state BFS over operation histories on the real MappingSchema, reference-model agreement on every transition",
